@@ -15,7 +15,9 @@ LEVEL = ("hash-seed clause: every place where the ORDER of a set-typed value is 
          "(narrow): aggregates are sorted, worklist rounds reset their errors, suffix tests on reference paths are "
          "separator-anchored, re-registrations of shared classes are monotone, late-filled fields of copied "
          "classes are read by templates only on the rendered object itself, context-less imported templates keep no macro-written "
-         "module state.")
+         "module state, the parsed document is written by nobody outside the schema package (a node is visited more than once), what "
+         "is emitted for a class that may be declared several times reads only what the re-declaration test compares, and order-"
+         "normalised where that test ignores order.")
 
 # unsorted iterations over sets whose order can only reach diagnostics text or idempotent removals (confirmed by reading).  A site is
 # identified by its role - the function and the set-typed attribute whose value the loop traverses (also through a local) - not by
@@ -119,6 +121,16 @@ def run(rep: Report, ctx: Any) -> str:
                       "object reached through fields / loops / macro parameters (that may be a copy taken before the field was filled)")
     rep.rule("R12.4", "a template that is imported without context (its module is cached for the whole run) holds no module-level object "
                       "that one of its macros writes to: what a render emits must not depend on the renders before it")
+    rep.rule("R12.5", "the parsed document is read-only outside the schema package: no statement stores into an attribute of a document "
+                      "object, or stores into / calls a mutating method on / hands to a writing function a container that may be one held "
+                      "by a document object (on some path, through locals, `or` / conditional arms, views, helpers' results), unless "
+                      "the object was created by the function itself - the parser visits one node several times (retry rounds, shared "
+                      "components), every visit must see the same document")
+    rep.rule("R12.6", "a class that may be declared several times under one registered name (the builder compares the registered entry "
+                      "with the new declaration and accepts it when equal): the templates rendered with the registered object read from "
+                      "it only the registration key and the compared fields, and where the comparison ignores order (dict / set equality) "
+                      "every observation of that field's order is sorted - otherwise the declaration that happens to be registered last "
+                      "decides the output")
     rep.assumptions.append("dict iteration order is insertion order (language guarantee); only set/frozenset order is hash-dependent")
     rep.assumptions.append("R12.3: the objects passed to Template.render() are the registered instances themselves and rendering starts after "
                            "parsing has finished, so every late write has happened on them")
@@ -252,6 +264,19 @@ def run(rep: Report, ctx: Any) -> str:
     rep.floor("shared_class_flag_updates", n_m, 1)
     _late_filled_fields(rep, ctx)
     _template_module_state(rep, ctx)
+    _document_read_only(rep, ctx)
+    _redeclared_classes(rep, ctx)
+    # R12.7: nobody registers into the threaded registries (Schemas / Parameters) in place - the retry rounds go back to the state of
+    # before a failed attempt, which only works on evolved copies.  Stated once for C08 / C12 / C20 in the shared module inplace.py
+    # (written on the C08 branch); the clause is claimed here as soon as that module is part of the tree
+    try:
+        from . import inplace
+    except ImportError:
+        inplace = None  # type: ignore[assignment]
+    if inplace is not None:
+        inplace.check(rep, ctx, "R12.7")
+    else:
+        rep.not_decided += ["in-place registration into the threaded registries (shared rule inplace.py not present in this tree)"]
     rep.not_decided += ["invariance under permutation as such (class-name collisions and {name}_type_{i} numbering are order-sensitive "
                         "by construction; the property restricts itself to documents without diagnostics)"]
     return LEVEL
@@ -1107,3 +1132,701 @@ def _template_module_state(rep: Report, ctx: Any) -> None:
                      f"imported without context ({cached[tname]}), so Jinja creates its module once per Environment and the object "
                      "lives for the whole run: what is emitted depends on which schemas / operations were rendered before",
                      where=f"{PKG}/templates/{tname}:{ln}", lhs=var, rhs="state declared inside the macro (per call) or in the rendered template")
+
+
+# ---- R12.5 the parsed document is read-only -----------------------------------------------------------------------------------
+DOC_PKG = f"{PKG}.schema"
+CONTAINER_TYPES = {"list", "dict", "set", "sortedlist"}
+CONTAINER_MUTATORS = ("append", "extend", "insert", "pop", "remove", "clear", "update", "setdefault", "popitem", "sort", "reverse", "add",
+                      "discard", "intersection_update", "difference_update", "symmetric_difference_update", "__setitem__", "__delitem__",
+                      "__iadd__", "__ior__")
+# calls whose result is, or gives access to, what the receiver holds (a nested container, a view on the same storage)
+ELEMENT_VIEWS = ("get", "values", "items", "setdefault", "pop", "popitem", "__getitem__")
+# a new object whose fields still hold the containers of the original ...
+SHALLOW_COPIERS = ("model_copy", "copy", "evolve", "replace")
+# ... and a new object that shares nothing with what it was made from
+DEEP_COPIERS = ("deepcopy", "model_validate", "model_validate_json", "model_construct", "parse_obj", "parse_raw")
+ATTR_WRITERS = ("setattr", "object.__setattr__", "delattr", "object.__delattr__")
+# writes to the document that are confirmed (by reading, and by generating with shared / retried nodes) to leave every later visit of
+# the node with the result of the first one.  Identified by role: (module of the writing function, document class, field written)
+DOC_WRITES_FROZEN = {
+    ("parser.properties.enum_property", "Schema", "oneOf"):
+        "an enum that lists null is rewritten, once, into oneOf[null, the same enum without null]: the builder hands the rewritten node "
+        "to the union builder in the same call, and a later visit (enum is None now) reaches the union builder with the same node",
+    ("parser.properties.enum_property", "Schema", "enum"):
+        "second half of the same rewrite (enum moved into the oneOf member): decides that later visits take the union branch at once",
+    ("parser.properties.literal_enum_property", "Schema", "oneOf"):
+        "literal-enum twin of the nullable-enum rewrite: same node, same union builder on the first and on every later visit",
+    ("parser.properties.literal_enum_property", "Schema", "enum"):
+        "literal-enum twin of the nullable-enum rewrite (enum moved into the oneOf member)",
+}
+
+
+def _own_nodes(fn: ast.AST) -> Any:
+    """nodes of the function itself: nested function / class definitions are functions of their own"""
+    stack = list(reversed(list(ast.iter_child_nodes(fn))))
+    while stack:
+        n = stack.pop()
+        yield n
+        if isinstance(n, (ast.FunctionDef, ast.AsyncFunctionDef, ast.ClassDef)):
+            continue
+        stack.extend(reversed(list(ast.iter_child_nodes(n))))
+
+
+def _all_params(f: Any) -> set[str]:
+    a = f.node.args
+    return {x.arg for x in f.params} | ({a.vararg.arg} if a.vararg else set()) | ({a.kwarg.arg} if a.kwarg else set())
+
+
+class _DocFlow:
+    """which expressions of one function may denote an object of the parsed document, or a container held by one.  Objects are
+    recognised by their abstract type (a class of the schema package) unless the function made them itself; containers by where
+    they come from: a field of a document object, an element / view of such a container, a local that some reaching binding
+    makes a name for one (an `or` / conditional expression is any of its arms), the result of a function that returns one.
+    `roots`: parameters assumed to hold such a container (used to summarise what a function does to its arguments)."""
+
+    def __init__(self, f: Any, types_of: Any, summaries: "dict[str, _Summary]", callees: Any, ix: Any, cfgs: dict[str, Any],
+                 roots: frozenset[str] = frozenset(), outer: "_DocFlow | None" = None, static: "dict[str, Any] | None" = None) -> None:
+        self.f, self.types_of, self.summaries, self.callees, self.ix, self.cfgs = f, types_of, summaries, callees, ix, cfgs
+        self.roots, self.outer = roots, outer
+        st = static if static is not None else {}
+        if not st:  # facts about the function's text, shared by every flow over it
+            from ..cfg import walk_own
+
+            st["lc"] = Locals(f.node)
+            st["params"] = _all_params(f)
+            st["own"] = list(_own_nodes(f.node))
+            st["stmt"] = {}
+            for n in [x for x in ast.walk(f.node) if isinstance(x, ast.stmt)]:  # outer statements first: the innermost one wins
+                for sub in walk_own(n):
+                    st["stmt"][id(sub)] = n
+        self.lc, self.params, self.own, self._stmt_of = st["lc"], st["params"], st["own"], st["stmt"]
+        self.class_names = {c.name for c in ix.classes.values()}
+
+    # -- bindings of a local that can be in force at a statement
+    def _stmt(self, node: ast.AST) -> ast.stmt | None:
+        return node if isinstance(node, ast.stmt) else self._stmt_of.get(id(node))
+
+    def reaching(self, name: str, at: ast.stmt | None) -> list[tuple[str, ast.AST, ast.AST | None]]:
+        """the bindings of the local that can be in force when statement `at` runs (all of them when that cannot be decided)"""
+        from ..astutil import cfg_of
+
+        ds = [d for d in self.lc.defs.get(name, []) if not d[0].startswith("aug")]  # `x += ..` keeps the object x names
+        if at is None or len(ds) < 2:
+            return ds
+        cfg = cfg_of(self.f, self.cfgs)
+        where_ = [self._stmt(d[1]) for d in ds]
+        if any(w is None or w not in cfg.succ for w in where_) or at not in cfg.succ:
+            return ds
+        out = []
+        for d, w in zip(ds, where_):
+            others = {id(x) for x in where_ if x is not w}
+            if at in cfg.reachable_from(w, avoid=lambda n: id(n) in others and n is not at):
+                out.append(d)
+        return out
+
+    # -- objects
+    def doc_classes(self, e: ast.AST) -> set[str]:
+        return {t for t in self.types_of(e) if t.startswith(DOC_PKG + ".")}
+
+    def made_here(self, e: ast.AST, at: ast.stmt | None, deep: bool, seen: tuple[str, ...] = ()) -> bool:
+        """e is an object the function created itself (deep: one that shares no container with an existing object)"""
+        if isinstance(e, ast.Call):
+            last = call_name(e).rsplit(".", 1)[-1]
+            if last in DEEP_COPIERS or last == "cls" or last in self.class_names:
+                return True
+            if last in SHALLOW_COPIERS:
+                return not deep or any(k.arg == "deep" and isinstance(k.value, ast.Constant) and k.value.value is True for k in e.keywords)
+            return False
+        if isinstance(e, ast.IfExp):
+            return self.made_here(e.body, at, deep, seen) and self.made_here(e.orelse, at, deep, seen)
+        if isinstance(e, ast.BoolOp):
+            return all(self.made_here(v, at, deep, seen) for v in e.values)
+        if isinstance(e, (ast.NamedExpr, ast.Await)):
+            return self.made_here(e.value, at, deep, seen)
+        if isinstance(e, ast.Name) and e.id not in self.params and e.id not in seen:
+            ds = self.reaching(e.id, at)
+            return bool(ds) and all(k == "assign" and v is not None and self.made_here(v, self._stmt(st), deep, (*seen, e.id)) for k, st, v in ds)
+        return False
+
+    def doc_object(self, e: ast.AST, at: ast.stmt | None) -> bool:
+        return bool(self.doc_classes(e)) and not self.made_here(e, at, deep=False)
+
+    # -- containers: the document fields (texts, locals by role) that e may be a name for
+    def container(self, e: ast.AST | None, at: ast.stmt | None, seen: tuple[str, ...] = ()) -> set[str]:
+        if e is None:
+            return set()
+        if isinstance(e, ast.BoolOp):
+            return set().union(*[self.container(v, at, seen) for v in e.values])
+        if isinstance(e, ast.IfExp):
+            return self.container(e.body, at, seen) | self.container(e.orelse, at, seen)
+        if isinstance(e, (ast.NamedExpr, ast.Await, ast.Starred)):
+            return self.container(e.value, at, seen)
+        if isinstance(e, ast.Attribute):
+            if self.types_of(e) & CONTAINER_TYPES and self.doc_classes(e.value) and not self.made_here(e.value, at, deep=True):
+                return {role_anon(e, self.f.node)}
+            return set()
+        if isinstance(e, ast.Subscript):
+            t = self.types_of(e)  # an element that is (or may be: untyped) a container of its own
+            return self.container(e.value, at, seen) if t & CONTAINER_TYPES or not t - {"Any"} else set()
+        if isinstance(e, ast.Call):
+            if isinstance(e.func, ast.Attribute) and e.func.attr in ELEMENT_VIEWS:
+                return self.container(e.func.value, at, seen)
+            if call_name(e) == "getattr" and e.args:
+                if self.types_of(e) & CONTAINER_TYPES and self.doc_classes(e.args[0]) and not self.made_here(e.args[0], at, deep=True):
+                    return {role_anon(e, self.f.node)}
+                return set()
+            out: set[str] = set()
+            for g in self.callees(e, self.f):
+                sm = self.summaries.get(g.qual)
+                if sm is None:
+                    continue
+                if sm.returns_doc:
+                    out |= {f"{g.name}() -> {o}" for o in sm.returns_doc}
+                for p_, a in _bind_args(e, g):
+                    if p_ in sm.returns_param:
+                        out |= self.container(a, at, seen)
+            return out
+        if isinstance(e, ast.Name) and e.id not in seen:
+            if e.id in self.params:
+                return {f"<parameter {e.id}>"} if e.id in self.roots else set()
+            if e.id not in self.lc.defs:
+                return self.outer.container(e, None) if self.outer is not None else set()
+            out = set()
+            for k, st, v in self.reaching(e.id, at):
+                if v is None:
+                    continue
+                got = self.container(v, self._stmt(st), (*seen, e.id))
+                if k.startswith("for") or "[" in k:
+                    # an element of what is traversed / unpacked: a container of its own only if it is typed as one
+                    got = got if self.types_of(e) & CONTAINER_TYPES else set()
+                out |= got
+            return out
+        return set()
+
+    # -- writes
+    def writes(self) -> tuple[list[tuple[ast.AST, str, str, str]], int]:
+        """((node, what is written: origin text, operation, document class.field or ''), number of write sites examined)"""
+        out: list[tuple[ast.AST, str, str, str]] = []
+        examined = 0
+        for n in self.own:
+            if isinstance(n, (ast.Assign, ast.AugAssign, ast.AnnAssign, ast.Delete)):
+                at = self._stmt(n)
+                todo = list(n.targets) if isinstance(n, (ast.Assign, ast.Delete)) else [n.target]
+                while todo:
+                    t = todo.pop()
+                    if isinstance(t, (ast.Tuple, ast.List)):
+                        todo += t.elts
+                    elif isinstance(t, ast.Starred):
+                        todo.append(t.value)
+                    elif isinstance(t, ast.Attribute):
+                        examined += 1
+                        if self.doc_object(t.value, at):
+                            cls = sorted(c.rsplit(".", 1)[-1] for c in self.doc_classes(t.value))
+                            out.append((n, f"{self._object_text(t.value, cls)}.{t.attr}", " del" if isinstance(n, ast.Delete) else " =",
+                                        f"{'|'.join(cls)}.{t.attr}"))
+                        elif isinstance(n, ast.AugAssign):
+                            for o in sorted(self.container(t, at)):
+                                out.append((n, o, " (augmented assignment)", ""))
+                    elif isinstance(t, ast.Subscript):
+                        examined += 1
+                        for o in sorted(self.container(t.value, at)):
+                            out.append((n, o, "[..] del" if isinstance(n, ast.Delete) else "[..] =", ""))
+                    elif isinstance(t, ast.Name) and isinstance(n, ast.AugAssign):
+                        examined += 1
+                        for o in sorted(self.container(t, at)):
+                            out.append((n, o, " (augmented assignment)", ""))
+            elif isinstance(n, ast.Call):
+                at = self._stmt(n)
+                cn = call_name(n)
+                if isinstance(n.func, ast.Attribute) and n.func.attr in CONTAINER_MUTATORS:
+                    examined += 1
+                    for o in sorted(self.container(n.func.value, at)):
+                        out.append((n, o, f".{n.func.attr}()", ""))
+                elif cn in ATTR_WRITERS and n.args:
+                    examined += 1
+                    if self.doc_object(n.args[0], at):
+                        fld = n.args[1].value if len(n.args) > 1 and isinstance(n.args[1], ast.Constant) else "?"
+                        cls = sorted(c.rsplit(".", 1)[-1] for c in self.doc_classes(n.args[0]))
+                        out.append((n, f"{self._object_text(n.args[0], cls)}.{fld}", " " + cn.rsplit(".", 1)[-1] + "()", f"{'|'.join(cls)}.{fld}"))
+                else:
+                    for g in self.callees(n, self.f):
+                        sm = self.summaries.get(g.qual)
+                        if sm is None or not sm.writes_param:
+                            continue
+                        for p_, a in _bind_args(n, g):
+                            if p_ in sm.writes_param:
+                                examined += 1
+                                for o in sorted(self.container(a, at)):
+                                    out.append((n, o, f" handed to {g.name}(), which writes to its `{p_}`", ""))
+        return out, examined
+
+    def _object_text(self, e: ast.AST, cls: list[str]) -> str:
+        """key text of a document object: its expression with locals by role; a local whose role has no description is shown by the
+        document class it holds"""
+        t = role_anon(e, self.f.node)
+        return f"<{'|'.join(cls)}>" if t == "_" else t
+
+    def returned(self) -> set[str]:
+        out: set[str] = set()
+        for n in self.own:
+            if isinstance(n, ast.Return) and n.value is not None:
+                vals = list(n.value.elts) if isinstance(n.value, ast.Tuple) else [n.value]
+                for v in vals:
+                    out |= self.container(v, n)
+        return out
+
+
+class _Summary:
+    def __init__(self) -> None:
+        self.writes_param: set[str] = set()   # parameters whose (container) argument the function may write to
+        self.returns_param: set[str] = set()  # parameters whose (container) argument the result may be
+        self.returns_doc: set[str] = set()    # document fields whose container the result may be
+
+    def sig(self) -> tuple[Any, ...]:
+        return (frozenset(self.writes_param), frozenset(self.returns_param), frozenset(self.returns_doc))
+
+
+def _bind_args(c: ast.Call, g: Any) -> list[tuple[str, ast.AST]]:
+    """(parameter name of g, argument expression) for the arguments of call c"""
+    a = g.node.args
+    pos = [x.arg for x in [*a.posonlyargs, *a.args]]
+    if g.cls is not None and g.kind != "staticmethod" and pos[:1] and pos[0] in ("self", "cls"):
+        pos = pos[1:]
+    names = set(pos) | {x.arg for x in a.kwonlyargs}
+    out = [(pos[i], v) for i, v in enumerate(c.args) if i < len(pos) and not isinstance(v, ast.Starred)]
+    out += [(k.arg, k.value) for k in c.keywords if k.arg in names]
+    return out
+
+
+def _doc_flow_engine(ix: Any, types_of: Any, call_targets: Any) -> tuple[Any, dict[str, _Summary]]:
+    """(factory of _DocFlow per function, summaries of what every function does to / returns of its container arguments)"""
+    cfgs: dict[str, Any] = {}
+    summaries: dict[str, _Summary] = {}
+    funcs = [f for f in ix.all_functions if not f.module.name.startswith(DOC_PKG)]
+    flows: dict[str, _DocFlow] = {}
+
+    statics: dict[str, dict[str, Any]] = {}
+
+    def flow(f: Any, roots: frozenset[str] = frozenset()) -> _DocFlow:
+        outer = flow(f.parent) if f.parent is not None else None
+        if roots:
+            return _DocFlow(f, types_of, summaries, call_targets, ix, cfgs, roots, outer, statics.setdefault(f.qual, {}))
+        if f.qual not in flows:
+            flows[f.qual] = _DocFlow(f, types_of, summaries, call_targets, ix, cfgs, roots, outer, statics.setdefault(f.qual, {}))
+        return flows[f.qual]
+
+    for _ in range(4):
+        before = {q: s.sig() for q, s in summaries.items()}
+        for f in funcs:
+            sm = summaries.setdefault(f.qual, _Summary())
+            sm.returns_doc |= {o for o in flow(f).returned() if not o.startswith("<parameter ")}
+            for p_ in sorted(_all_params(f)):
+                fl = flow(f, frozenset({p_}))
+                mark = f"<parameter {p_}>"
+                if any(o == mark for _, o, _, _ in fl.writes()[0]):
+                    sm.writes_param.add(p_)
+                if mark in fl.returned():
+                    sm.returns_param.add(p_)
+        if before == {q: s.sig() for q, s in summaries.items()}:
+            break
+    return flow, summaries
+
+
+def _interp_views(it: Any) -> tuple[Any, Any]:
+    """(abstract types of an expression node, repository functions a call may reach) as the abstract interpreter recorded them; a method
+    call is resolved through the caller's call edges by the method's name"""
+    def types_of(e: ast.AST) -> frozenset[str]:
+        av = it.node_av.get(id(e))
+        return frozenset(av.types) if av is not None else frozenset()
+
+    def call_targets(c: ast.Call, f: Any) -> list[Any]:
+        av = it.node_av.get(id(c.func))
+        out = [it.func_by_qual[q] for kind, q in (av.funcs if av is not None else ()) if kind == "func" and q in it.func_by_qual]
+        if not out:
+            last = call_name(c).rsplit(".", 1)[-1]
+            out = [it.func_by_qual[q] for q in sorted(it.call_edges.get(f.qual, ())) if q.rsplit(".", 1)[-1] == last and q in it.func_by_qual]
+        return [g for g in out if not g.module.name.startswith(DOC_PKG)]
+
+    return types_of, call_targets
+
+
+def _document_read_only(rep: Report, ctx: Any) -> None:
+    ix = ctx.py
+    it, _ = ctx.flow
+
+    types_of, call_targets = _interp_views(it)
+    rep.control("R12.5 aliasing forms", _control_document_aliases(ix))
+    flow, _ = _doc_flow_engine(ix, types_of, call_targets)
+    n_readers = n_sites = 0
+    for f in ix.all_functions:
+        if f.module.name.startswith(DOC_PKG):
+            continue
+        fl = flow(f)
+        reads = any(fl.doc_classes(n) for n in _own_nodes(f.node) if isinstance(n, (ast.Name, ast.Attribute, ast.Subscript, ast.Call)))
+        if not reads:
+            continue
+        n_readers += 1
+        found, examined = fl.writes()
+        n_sites += examined
+        seen: set[str] = set()
+        for node, origin, op, fld in found:
+            key = f"{short(f)}::{origin}{op}"
+            if key in seen:
+                continue
+            seen.add(key)
+            cls, _, attr = fld.partition(".")
+            frozen = next((why for (mod, c, a), why in DOC_WRITES_FROZEN.items()
+                           if fld and mod == f.module.name.replace(PKG + ".", "", 1) and a == attr and c in cls.split("|")), None)
+            if frozen is not None:
+                rep.ok("R12.5", key, "frozen", frozen, nontrivial=False)
+                continue
+            rep.fail("R12.5", key, f"`{norm(node)[:100]}` writes to the parsed document ({origin}): the same node is visited again when a "
+                                   "forward reference is retried or a shared component is referenced twice, and the second visit then sees "
+                                   "a different document than the first - the output depends on the order of definitions",
+                     where(f, node), lhs=origin, rhs="a copy made by the function itself (list(..), [*..], model_copy, ...)")
+        if not found:
+            rep.ok("R12.5", f"{short(f)}::document-reads", examined, "no write site reaches a document object or one of its containers")
+    rep.floor("functions_reading_the_document", n_readers, 20)
+    rep.floor("write_sites_examined_in_document_readers", n_sites, 20)
+
+
+def _control_document_aliases(ix: Any) -> bool:
+    """synthetic fragment: every way of reaching a document container that the rule claims to see through must be seen, and the
+    correct forms (a copy made first, a re-bound local, an object created by the function) must not"""
+    from types import SimpleNamespace
+
+    from ..pyindex import FuncInfo, Module
+
+    src = ("def f(data, other):\n"
+           "    a = data.prefixItems or []\n"
+           "    a.append(other)\n"                      # hit: alias through `or`
+           "    b = list(data.prefixItems)\n"
+           "    b.append(other)\n"
+           "    data.required.sort()\n"                 # hit: mutator on the field itself
+           "    c = data.prefixItems\n"
+           "    c = [*c]\n"
+           "    c.append(other)\n"                      # re-bound to a copy first
+           "    for s in data.allOf:\n"
+           "        s.title = None\n"                   # hit: attribute of a document object
+           "    fresh = Schema(anyOf=b)\n"
+           "    fresh.title = None\n"
+           "    data.properties['k'] = other\n"         # hit: keyed store
+           "    _fill(data.required if other else [])\n"  # hit: handed to a function that writes to its parameter
+           "    _fill(b)\n"
+           "    _view(data).extend(b)\n"                # hit: result of a function that returns the document's container
+           "def _fill(xs):\n"
+           "    xs.append(1)\n"
+           "def _view(d):\n"
+           "    return d.required or []\n")
+    tree = ast.parse(src)
+    mod = Module("control", ix.root, "control.py", tree, src, False)
+    funcs = [FuncInfo(n.name, f"control.{n.name}", mod, None, n) for n in tree.body if isinstance(n, ast.FunctionDef)]
+    schema = DOC_PKG + ".control.Schema"
+    lists, dicts = ("prefixItems", "required", "allOf"), ("properties",)
+
+    def types_of(e: ast.AST) -> frozenset[str]:
+        if isinstance(e, ast.Name) and e.id in ("data", "d", "s", "fresh"):
+            return frozenset({schema})
+        if isinstance(e, ast.Attribute) and isinstance(e.value, ast.Name) and e.value.id in ("data", "d"):
+            return frozenset({"list"} if e.attr in lists else {"dict"} if e.attr in dicts else set())
+        if isinstance(e, ast.Name) and e.id in ("a", "b", "c", "xs"):
+            return frozenset({"list"})
+        return frozenset()
+
+    def call_targets(c: ast.Call, f: Any) -> list[Any]:
+        return [g for g in funcs if g.name == call_name(c)]
+
+    stub = SimpleNamespace(all_functions=funcs, classes={schema: SimpleNamespace(name="Schema")})
+    flow, _ = _doc_flow_engine(stub, types_of, call_targets)
+    found, _ = flow(funcs[0]).writes()
+    return sorted(getattr(n, "lineno", 0) for n, _, _, _ in found) == [3, 6, 11, 14, 15, 17]
+
+
+
+# ---- R12.6 classes that may be declared several times --------------------------------------------------------------------------
+UNORDERED_EQ = {"dict", "set", "frozenset"}          # `==` on these ignores the order of the entries
+VIEW_ATTRS = ("items", "keys", "values")
+T_SORTING = ("sort", "dictsort")
+T_ORDER_BLIND = ("length", "count", "sum", "min", "max")
+T_ORDER_KEEPING = ("list", "unique", "select", "reject", "selectattr", "rejectattr", "map", "batch", "slice", "reverse", "items", "default", "d")
+# fields that are a function of a compared field (confirmed by reading the builder): (class, field) -> reason
+DERIVED_FIELDS = {
+    ("EnumProperty", "value_type"): "the common type of the members: two declarations with equal values have equal member types",
+    ("LiteralEnumProperty", "value_type"): "the common type of the members: two declarations with equal values have equal member types",
+}
+
+
+def _redeclaration_guards(ix: Any, it: Any, types_of: Any, call_targets: Any) -> list[tuple[Any, ast.Compare, str, str, bool]]:
+    """(function, comparison, class K, field F, the comparison ignores order) for every equality test between a field of an entry found
+    in a registry of the repository (a keyed lookup in a dict held by a repository object) and something else: the test by which a
+    builder decides that a declaration is the one already registered.  The entry is found by role - the local (or the parameter of
+    a helper it is handed to) bound from the lookup - and its class by its abstract type narrowed by the isinstance tests on it."""
+    funcs = [f for f in ix.all_functions if not f.module.name.startswith(DOC_PKG)]
+    repo_classes = {q for q in ix.classes if not q.startswith(DOC_PKG + ".")}
+
+    def lookup(v: ast.AST | None, lc: Locals, depth: int = 2) -> bool:
+        if isinstance(v, ast.NamedExpr):
+            v = v.value
+        base = v.value if isinstance(v, ast.Subscript) else \
+            v.func.value if isinstance(v, ast.Call) and isinstance(v.func, ast.Attribute) and v.func.attr == "get" and v.args else None
+        if base is None or "dict" not in types_of(base):
+            return False
+        if isinstance(base, ast.Name) and depth > 0:
+            vals = lc.values_of(base.id)
+            return bool(vals) and all(isinstance(x, ast.Attribute) and bool(types_of(x.value) & repo_classes) for x in vals)
+        return isinstance(base, ast.Attribute) and bool(types_of(base.value) & repo_classes)
+
+    # local (or parameter) that names a registry entry -> the functions in which the lookup was made
+    entries: dict[str, dict[str, set[str]]] = {}
+    locs = {f.qual: Locals(f.node) for f in funcs}
+    by_qual = {f.qual: f for f in funcs}
+    for f in funcs:
+        for name, ds in locs[f.qual].defs.items():
+            if any(k == "assign" and lookup(v, locs[f.qual]) for k, _, v in ds):
+                entries.setdefault(f.qual, {}).setdefault(name, set()).add(f.qual)
+    for _ in range(2):  # an entry handed to a helper is an entry there
+        for f in funcs:
+            mine = entries.get(f.qual, {})
+            for c in [n for n in ast.walk(f.node) if isinstance(n, ast.Call)]:
+                args = [*c.args, *[k.value for k in c.keywords]]
+                if not any((isinstance(a, ast.Name) and a.id in mine) or lookup(a, locs[f.qual]) for a in args):
+                    continue
+                for g in call_targets(c, f):
+                    for p_, a in _bind_args(c, g):
+                        if isinstance(a, ast.Name) and a.id in mine:
+                            entries.setdefault(g.qual, {}).setdefault(p_, set()).update(mine[a.id])
+                        elif lookup(a, locs[f.qual]):
+                            entries.setdefault(g.qual, {}).setdefault(p_, set()).add(f.qual)
+
+    def builds(origin: str, q: str) -> bool:
+        """the function that looked the entry up goes on to create an object of class q (itself or in its private helpers): it is the
+        builder of a declaration of that class, the comparison is how it recognises a re-declaration"""
+        from ..astutil import region
+
+        o = by_qual[origin]
+        for g in region(ix, o):
+            for c in [n for n in ast.walk(g.node) if isinstance(n, ast.Call)]:
+                last = call_name(c).rsplit(".", 1)[-1]
+                if last == ix.classes[q].name or (last == "cls" and g.cls is not None and g.cls.qual == q):
+                    return True
+        return False
+
+    out = []
+    for f in funcs:
+        mine = entries.get(f.qual, {})
+        lc = locs[f.qual]
+
+        def is_entry(e: ast.AST) -> bool:
+            return (isinstance(e, ast.Name) and e.id in mine) or lookup(e, lc)
+
+        def origins(e: ast.AST) -> set[str]:
+            return mine[e.id] if isinstance(e, ast.Name) and e.id in mine else {f.qual}
+
+        if not any(isinstance(n, ast.Compare) for n in ast.walk(f.node)):
+            continue
+        narrowed: dict[str, set[str]] = {}
+        for n in ast.walk(f.node):
+            if isinstance(n, ast.Call) and call_name(n) == "isinstance" and len(n.args) == 2 and isinstance(n.args[0], ast.Name):
+                names = {(dotted(x) or "").rsplit(".", 1)[-1] for x in (n.args[1].elts if isinstance(n.args[1], ast.Tuple) else [n.args[1]])}
+                for q in repo_classes:
+                    if any(b.name in names for b in ix.mro(ix.classes[q])):
+                        narrowed.setdefault(n.args[0].id, set()).add(q)
+        for n in ast.walk(f.node):
+            if not (isinstance(n, ast.Compare) and len(n.ops) == 1 and isinstance(n.ops[0], (ast.Eq, ast.NotEq))):
+                continue
+            for side in (n.left, n.comparators[0]):
+                parent = {id(ch): p_ for p_ in ast.walk(side) for ch in ast.iter_child_nodes(p_)}
+                for a in [x for x in ast.walk(side) if isinstance(x, ast.Attribute) and is_entry(x.value)]:
+                    wrapped_blind = wrapped_ordered = False
+                    cur: ast.AST = a
+                    while cur is not side:
+                        par = parent[id(cur)]
+                        if isinstance(par, ast.Call) and cur in par.args:
+                            last = call_name(par).rsplit(".", 1)[-1]
+                            wrapped_blind = wrapped_blind or last in ORDER_BLIND
+                            wrapped_ordered = wrapped_ordered or last in ("list", "tuple")
+                        cur = par
+                    cands = {q for q in types_of(a.value) & repo_classes if a.attr in ix.all_fields(ix.classes[q])}
+                    if isinstance(a.value, ast.Name) and cands & narrowed.get(a.value.id, set()):
+                        cands &= narrowed[a.value.id]
+                    for q in sorted(cands):
+                        if not any(builds(o, q) for o in origins(a.value)):
+                            continue
+                        c = ix.classes[q]
+                        declared = it.tr.from_ann(c.module, ix.all_fields(c).get(a.attr)).types
+                        blind = wrapped_blind or (not wrapped_ordered and bool(declared & UNORDERED_EQ))
+                        out.append((f, n, q, a.attr, blind))
+    return out
+
+
+def _key_fields(ix: Any, it: Any, q: str) -> set[str]:
+    """fields of class q that carry the name it is registered under: a field whose class holds a value of a key type of the name
+    registries (the key types are read off the annotations of the dict-typed fields of the repository's registry classes)"""
+    key_types: set[str] = set()
+    for c in ix.classes.values():
+        if c.qual.startswith(DOC_PKG + "."):
+            continue
+        for fld, ann in ix.all_fields(c).items():
+            av = it.tr.from_ann(c.module, ann)
+            if "dict" in av.types and av.key is not None and av.elem is not None and q in _with_subclasses(ix, av.elem.types):
+                key_types |= {t for t in av.key.types if t in ix.classes}
+    out = set()
+    c = ix.classes[q]
+    for fld, ann in ix.all_fields(c).items():
+        for t in it.tr.from_ann(c.module, ann).types:
+            if t in key_types:
+                out.add(fld)
+            elif t in ix.classes and any(set(it.tr.from_ann(ix.classes[t].module, a2).types) & key_types for a2 in ix.all_fields(ix.classes[t]).values()):
+                out.add(fld)
+    return out
+
+
+def _with_subclasses(ix: Any, types: Any) -> set[str]:
+    out = set()
+    for t in types:
+        if t in ix.classes:
+            out.add(t)
+            out |= {s.qual for s in ix.subclasses(ix.classes[t])}
+    return out
+
+
+def _self_reads(ix: Any, c: Any, meth: str, depth: int = 3, seen: "set[str] | None" = None) -> set[str]:
+    """fields of the object that method `meth` of class c reads, directly or through the methods it calls on itself"""
+    seen = seen if seen is not None else set()
+    m = ix.find_method(c, meth)
+    if m is None or m.qual in seen or depth < 0:
+        return set()
+    seen.add(m.qual)
+    me = m.params[0].arg if m.params else "self"
+    fields = ix.all_fields(c)
+    out: set[str] = set()
+    for n in ast.walk(m.node):
+        if isinstance(n, ast.Attribute) and isinstance(n.value, ast.Name) and n.value.id == me:
+            if n.attr in fields:
+                out.add(n.attr)
+            elif ix.find_method(c, n.attr) is not None:
+                out |= _self_reads(ix, c, n.attr, depth - 1, seen)
+    return out
+
+
+def _order_fate(g: Any, parent: dict[int, Any], tree: Any, nodes: Any, depth: int = 0) -> list[tuple[str, Any]]:
+    """what becomes of the order of the collection that template expression g evaluates to: [(sorted | blind | observed, node)].
+    Followed through views (.items()), order-keeping filters and template-local names."""
+    cur = g
+    while True:
+        p_ = parent.get(id(cur))
+        if p_ is None:
+            return [("observed", cur)]
+        if isinstance(p_, nodes.Getattr) and p_.node is cur and p_.attr in VIEW_ATTRS:
+            cur = p_
+        elif isinstance(p_, nodes.Call) and p_.node is cur and isinstance(cur, nodes.Getattr) and cur.attr in VIEW_ATTRS:
+            cur = p_
+        elif isinstance(p_, nodes.Filter) and p_.node is cur:
+            if p_.name in T_SORTING:
+                return [("sorted", p_)]
+            if p_.name in T_ORDER_BLIND:
+                return [("blind", p_)]
+            if p_.name not in T_ORDER_KEEPING:
+                return [("observed", p_)]
+            cur = p_
+        elif isinstance(p_, nodes.Operand) and p_.op in ("in", "notin") and p_.expr is cur:
+            return [("blind", p_)]
+        elif (isinstance(p_, nodes.Getitem) and p_.node is cur) or (isinstance(p_, nodes.Test) and p_.node is cur) or isinstance(p_, nodes.Not) or \
+                (isinstance(p_, (nodes.If, nodes.CondExpr)) and p_.test is cur):
+            return [("blind", p_)]
+        elif isinstance(p_, (nodes.And, nodes.Or)) or (isinstance(p_, nodes.CondExpr) and p_.test is not cur):
+            cur = p_
+        elif isinstance(p_, nodes.Assign) and p_.node is cur and isinstance(p_.target, nodes.Name) and depth < 4:
+            out: list[tuple[str, Any]] = []
+            for u in tree.find_all(nodes.Name):
+                if u.ctx == "load" and u.name == p_.target.name:
+                    out += _order_fate(u, parent, tree, nodes, depth + 1)
+            return out or [("blind", p_)]
+        else:
+            return [("observed", p_)]
+
+
+def _redeclared_classes(rep: Report, ctx: Any) -> None:
+    from jinja2 import nodes
+
+    from ..jinja_interp import expr_text
+
+    ix = ctx.py
+    it, ji = ctx.flow
+
+    types_of, call_targets = _interp_views(it)
+    guards = _redeclaration_guards(ix, it, types_of, call_targets)
+    compared: dict[str, dict[str, bool]] = {}  # class -> field -> some comparison of it ignores order
+    where_: dict[tuple[str, str], str] = {}
+    for f, n, q, fld, blind in guards:
+        compared.setdefault(q, {})[fld] = compared.get(q, {}).get(fld, False) or blind
+        where_.setdefault((q, fld), where(f, n))
+    rep.floor("redeclaration_tests_on_registered_entries", len({(q, fld) for _, _, q, fld, _ in guards}), 2)
+    rep.indexed["classes_that_may_be_redeclared"] = sorted(f"{q.rsplit('.', 1)[-1]}.{fld}" + (" (order ignored)" if b else "")
+                                                           for q, d in compared.items() for fld, b in d.items())
+    n_reads = 0
+    key_fields: dict[str, set[str]] = {}
+    for tname, ti in sorted(ctx.jinja.templates.items()):
+        parent = {id(ch): p_ for p_ in ti.tree.find_all(nodes.Node) for ch in p_.iter_child_nodes()}
+        parent.update({id(ch): ti.tree for ch in ti.tree.iter_child_nodes()})
+        alias = _template_aliases(ti, nodes)
+        rendered_with = {q for av in ji.render_kwargs.get(tname, {}).values() for q in av.types if q in compared}
+        scopes: dict[str, list[Any]] = {"<top>": ti.tree.body}
+        scopes.update({m.name: m.body for m in ti.tree.find_all(nodes.Macro)})
+        seen: set[str] = set()
+        for mname, body in scopes.items():
+            for g in _own_template_nodes(body, nodes):
+                if not isinstance(g, nodes.Getattr):
+                    continue
+                rd = ji.attr_reads.get((tname, mname, expr_text(g)))
+                if rd is None:
+                    continue
+                owners = sorted(q for q in rd[3] if q in compared)
+                if not owners:
+                    continue
+                text = _unfolded_text(g, alias, nodes)
+                # (a) order of a field that is compared without regard to order
+                for q in owners:
+                    if compared[q].get(g.attr):
+                        for verdict, at in _order_fate(g, parent, ti.tree, nodes):
+                            shown = at.iter if isinstance(at, nodes.For) else at
+                            key = f"{tname}::{mname}::order of {_unfolded_text(shown, alias, nodes) if isinstance(shown, nodes.Expr) else text}"
+                            if key in seen:
+                                continue
+                            seen.add(key)
+                            n_reads += 1
+                            rep.check(verdict != "observed", "R12.6", key,
+                                      f"`{expr_text(shown) if isinstance(shown, nodes.Expr) else text}` lays out {q.rsplit('.', 1)[-1]}.{g.attr} in "
+                                      f"its stored order, but two declarations of the class are taken to be the same when that field is "
+                                      f"equal as a {'/'.join(sorted(UNORDERED_EQ))} ({where_[(q, g.attr)]}: order ignored) and the one registered "
+                                      "last is rendered: the emitted order depends on the order of definitions in the document",
+                                      where=f"{PKG}/templates/{tname}:{getattr(at, 'lineno', 0)}", lhs=verdict, rhs="| sort / | dictsort / order-blind use")
+                # (b) a template rendered with the registered object reads only what identifies the declaration
+                for q in owners:
+                    if q not in rendered_with:
+                        continue
+                    c = ix.classes[q]
+                    if q not in key_fields:
+                        key_fields[q] = _key_fields(ix, it, q)
+                    allowed = set(compared[q]) | key_fields[q] | {fld for (cn, fld) in DERIVED_FIELDS if cn == c.name}
+                    if g.attr in ix.all_fields(c):
+                        read = {g.attr}
+                    elif ix.find_method(c, g.attr) is not None:
+                        read = _self_reads(ix, c, g.attr)
+                    else:
+                        continue
+                    key = f"{tname}::{mname}::{text} of {c.name}"
+                    if key in seen:
+                        continue
+                    seen.add(key)
+                    n_reads += 1
+                    extra = sorted(read - allowed)
+                    rep.check(not extra, "R12.6", key,
+                              f"`{expr_text(g)}` reads {', '.join(c.name + '.' + x for x in extra)} of the registered object: a class of that "
+                              f"name may be declared several times, declarations are taken to be the same when {sorted(compared[q])} are equal "
+                              "and the one registered last is rendered, so a field the comparison does not cover differs between them and "
+                              "the emitted text depends on the order of definitions in the document",
+                              where=f"{PKG}/templates/{tname}:{getattr(g, 'lineno', 0)}", lhs=sorted(read), rhs=sorted(allowed))
+    rep.floor("template_reads_of_redeclarable_classes", n_reads, 4)
+
